@@ -201,7 +201,8 @@ func forEachBlock(thorough bool, emit func(block)) {
 	jsonNames := append(items("a", "A", "", "a.a", "A.a", "%41", "\\u0041"),
 		Item{Name: "a", Sub: "a", Kind: "n"}, Item{Name: "A", Sub: "a", Kind: "n"}, Item{Name: "a", Sub: "", Kind: "n"},
 		Item{Name: "a", Sub: "a.a", Kind: "n"}, Item{Name: "a.a", Sub: "a", Kind: "n"}, Item{Name: "", Sub: "a", Kind: "n"},
-		Item{Name: "a", Kind: "l"}, Item{Name: "a.0", Kind: ""}, Item{Name: "a", Sub: "0", Kind: "n"})
+		Item{Name: "a", Kind: "l"}, Item{Name: "a.0", Kind: ""}, Item{Name: "a", Sub: "0", Kind: "n"},
+		Item{Name: "a", Kind: "e"}, Item{Name: "z", Kind: "E"})
 	mpNames := append(items("a", "A", "", "%41", "a\""),
 		Item{Name: "a", Kind: "F"}, Item{Name: "A", Kind: "F"}, Item{Name: "", Kind: "F"})
 	fams := []fam{
@@ -234,8 +235,11 @@ func forEachBlock(thorough bool, emit func(block)) {
 			limits = []Setting{{}}
 		}
 		pick := func(it Item, vals []string) []string {
-			if it.Kind == "F" {
+			switch it.Kind {
+			case "F":
 				return f.fvals
+			case "e", "E":
+				return []string{""}
 			}
 			return vals
 		}
